@@ -110,6 +110,20 @@ Definition facts_ok (F : facts) : bool :=
   f_replace_raises_on_leftover F && f_rewrite_exclude_wins F && f_rewrite_skips_unknown F &&
   f_rewrite_identity_when_empty F.
 
+(* the two behaviours before the repairs 090c4ab / d74a9d7, as variants of given facts *)
+Definition unfix_expand (F : facts) : facts :=
+  mkFacts (f_merge_guard_present F) (f_merge_guard_not_replace F) (f_merge_guard_in_map F) (f_extend_rev_when_replace F)
+          (f_extend_rev_when_keep F) (f_chain_in_order F) (f_init_filters_unknown F) false (f_group_first_wins F)
+          (f_group_flat_excludes_reserved F) (f_group_getattr_routes F) (f_group_replace_reads_member F)
+          (f_replace_raises_on_leftover F) (f_rewrite_exclude_wins F) (f_rewrite_skips_unknown F)
+          (f_rewrite_identity_when_empty F).
+Definition unfix_group_replace (F : facts) : facts :=
+  mkFacts (f_merge_guard_present F) (f_merge_guard_not_replace F) (f_merge_guard_in_map F) (f_extend_rev_when_replace F)
+          (f_extend_rev_when_keep F) (f_chain_in_order F) (f_init_filters_unknown F) (f_ts_from_original F)
+          (f_group_first_wins F) (f_group_flat_excludes_reserved F) (f_group_getattr_routes F) false
+          (f_replace_raises_on_leftover F) (f_rewrite_exclude_wins F) (f_rewrite_skips_unknown F)
+          (f_rewrite_identity_when_empty F).
+
 (* TimestampRecord and the type iter_timestamped_records selects; GENERATED *)
 Record tsfacts := mkTs {
   ts_desc_name : string;               (* "record/timestamp" *)
